@@ -67,3 +67,10 @@ From RS Require Import SchedStruct SchedUsageFacts.
 Theorem C09_reachable_depot_usage_exact : forall nw, stmt_reachable_usage nw.
 Proof. exact reachable_usage. Qed.
 Print Assumptions C09_reachable_depot_usage_exact.
+
+(** per-cycle maintenance counters, violation and totals per type: exact w.r.t. the current tours in every schedule
+    reachable without fit_reassign(p, p) (TransOK contains TInv's counter clauses) *)
+From RS Require Import SchedListFacts SchedTransFacts.
+Theorem C09_reachable_cycle_counters_exact : forall nw s, dreachable nw s -> TransOK nw s.
+Proof. exact reachable_trans_under_distinct. Qed.
+Print Assumptions C09_reachable_cycle_counters_exact.
